@@ -145,10 +145,11 @@ PROPS["C04"] = {
         KERNEL, HARNESS, GENCHECK,
         "statements in lean/Ogen/Props/C04.lean; model OptNil.* hand-written from the generated OptNilT codec (gen/_template/json/encoders_generic.tmpl, encoders_struct.tmpl); its tie is the canonical-state comparison of every wrapper in the differential run below",
         "the reference validator and the type-directed random value builder (harness/gcrt/rand.go) define the explored domain: additional-property keys never collide with declared property names; jx.Raw members hold well-formed JSON",
-        "NOT proved: encode/decode of structs, maps, arrays, numbers and strings (jx), schema conformance of the encoding — decided on regenerated code on every run",
+        "model JCodec.* (lean/Ogen/JsonCodecModel.lean) hand-written from gen/_template/json/encoders_struct.tmpl, encoders_generic.tmpl, encode.tmpl, decode.tmpl for the fragment integers / strings / booleans / arrays with possibly nullable items / objects with named properties (required or optional, nullable or not), over JSON syntax trees with unique member names; tie = regenerated types of random schemas of the fragment decode and re-encode random documents (valid in every member order with undeclared members; single-fault mutants) exactly as the model does (driver tag jcodec), and as a Go reference validator says",
+        "NOT proved: maps, sums, numbers other than integers, formats, validators, jx's tokenizer and writer, duplicate member names (the generated decoder merges a repeated object member into the first, the model decodes it afresh — never sent) — decided on regenerated code on every run",
     ],
     "assumptions": ["values are compared through canonical accessors (nil = empty collection inside a set wrapper; an unset wrapper has no JSON of its own)"],
-    "level_text": "partial: three_states / states_distinct / decode_canonical for the Opt/Nil/OptNil wrapper are Lean theorems; 'every value that passes its own validation encodes to JSON valid against the schema and decodes to an equal value' is decided on every run on regenerated code (random typed values incl. every wrapper state, nil/empty/non-empty collections, extreme numbers, escape-heavy strings, recursion; plus schema-directed instances), with known finding D15",
+    "level_text": "partial: three_states / states_distinct / decode_canonical for the Opt/Nil/OptNil wrapper, and for the object/array/wrapper fragment of the codec codec_round_trip (decode ∘ encode = id on values of the type), codec_output_valid (the encoding is admitted by the schema), codec_accepts_iff_valid (the decoder accepts exactly the schema-valid documents), codec_decodes_only_values, codec_canonical are Lean theorems over types and documents of any size; 'every value that passes its own validation encodes to JSON valid against the schema and decodes to an equal value' is decided on every run on regenerated code (random typed values incl. every wrapper state, nil/empty/non-empty collections, extreme numbers, escape-heavy strings, recursion; plus schema-directed instances), with known finding D15",
     "level_note": "trusted: Lean kernel, statements, wrapper model, reference validator, random value builder, gencheck pipeline. Known finding D15.",
     "technique": "Lean 4 proof of wrapper-state preservation; generated codecs checked by type-directed round trips and reference validation on regenerated code",
 }
